@@ -89,6 +89,14 @@ def cleanHandle (st : CleanSt) (cmd : String) (a : Args) : CleanSt × String :=
         (decPaths (a.get "roots")) (b01 (a.get "dirs"))
       (st, s!"listed={showPaths listed}")
     | none => (st, "bad-op")
+  | "clean.root" =>
+    -- `clean.root base= tree= common=<path> sect=<paths of pyproject.toml files with a pytask section>` → `root=<path> config=<path>|-`
+    match fs? with
+    | some (base, forest) =>
+      let sect := decPaths (a.get "sect")
+      let r := findRoot (wrapBase base forest) (fun p => sect.contains p) (decPath (a.get "common"))
+      (st, s!"root={encPath r.1} config={match r.2 with | some c => encPath c | none => "-"}")
+    | none => (st, "bad-op")
   | "clean.run" =>
     let modeName := match a.get "mode" with
       | "inter" => "interactive" | "dry" => "dry-run" | m => m
